@@ -38,10 +38,10 @@ Proof. induction c; cbn; try discriminate; auto. Qed.
 Lemma starts_paren_head_not c : starts_paren c = true -> head_not c = false.
 Proof. induction c; cbn; try discriminate; auto. Qed.
 
-Lemma atom_head a st : atom_ok a st ->
+Lemma atom_head al a st : atom_okx al a st ->
   exists ch t, print_atom a st = ch :: t /\ is_space ch = false /\ (ch =? LP)%N = false.
 Proof.
-  intros Hok. destruct (print_atom_head a st Hok) as [(c & t & E & H1 & H2 & _)|[Hs Hp]].
+  intros Hok. destruct (print_atom_head al a st Hok) as [(c & t & E & H1 & H2 & _)|[Hs Hp]].
   - exists c, t. auto.
   - destruct Hok as [Hv _]. unfold print_atom. rewrite Hs, Hp in *. cbn [print_value value_ok] in *.
     destruct (unquoted_head _ Hv) as (c & t & -> & Hr & _). exists c, t. split; [reflexivity|].
@@ -49,20 +49,21 @@ Proof.
     apply orb_false_elim in Hr as [Hsp _]. auto.
 Qed.
 
-Lemma print_head lvl c : ok lvl c -> exists ch t, print c = ch :: t /\ is_space ch = false.
+Lemma print_head c : forall b rp lvl, okx b rp lvl c -> exists ch t, print c = ch :: t /\ is_space ch = false.
 Proof.
-  revert lvl. induction c as [a st|w c IH|k l IHl w1 w2 r IHr|w1 c IH w2]; intros lvl; cbn [ok print].
-  - intros H. destruct (atom_head a st H) as (ch & t & E & Hs & _). eauto.
+  induction c as [a st|w c IH|k l IHl w1 w2 r IHr|w1 c IH w2]; intros b rp lvl; cbn [okx print].
+  - intros H. destruct (atom_head _ a st H) as (ch & t & E & Hs & _). eauto.
   - intros _. eexists _, _. split; reflexivity.
-  - intros (_ & _ & _ & _ & Hl & _). destruct (IHl _ Hl) as (ch & t & -> & Hs). eexists _, _. split; [reflexivity|exact Hs].
+  - intros (_ & _ & _ & _ & Hl & _). destruct (IHl _ _ _ Hl) as (ch & t & -> & Hs). eexists _, _. split; [reflexivity|exact Hs].
   - intros _. eexists _, _. split; reflexivity.
 Qed.
 
-Lemma print_nonspace lvl c rest : ok lvl c -> nonspace_head (print c ++ rest).
-Proof. intros H. destruct (print_head lvl c H) as (ch & t & -> & Hs). exact Hs. Qed.
+Lemma print_nonspace b rp lvl c rest : okx b rp lvl c -> nonspace_head (print c ++ rest).
+Proof. intros H. destruct (print_head c b rp lvl H) as (ch & t & -> & Hs). exact Hs. Qed.
 
 Definition pre (prev : option N) (c : cst) : Prop := head_not c = true -> prev_ok prev = true.
-Definition fol (c : cst) (rest : str) : Prop := needs_stop c = true -> stop rest.
+Definition fol (rp : bool) (c : cst) (rest : str) : Prop :=
+  (needs_stop c = true -> stop rest) /\ (rp = true -> exists r', rest = RP :: r').
 
 Definition EV {A} (F : nat -> res A) (X : res A) : Prop := exists n0, forall n, (n0 <= n)%nat -> F n = X.
 
@@ -74,6 +75,7 @@ Section PP.
   Variable compile : atom -> cres.
 
   Definition compiled (c : cst) : Prop := forall a, In a (catoms c) -> compile a = COk.
+  Let b := bare_keyword_atom V.
 
   (* ================= a generic level ================= *)
   Section Level.
@@ -83,8 +85,8 @@ Section PP.
     Hypothesis Htail : forall w t, is_ws w -> tailS (w ++ kw_str k ++ t).
     Let mk := mk_of k.
 
-    Definition item_spec (c : cst) : Prop :=
-      forall prev rest, pre prev c -> fol c rest -> tailS rest ->
+    Definition item_spec (rp : bool) (c : cst) : Prop :=
+      forall prev rest, pre prev c -> fol rp c rest -> tailS rest ->
       exists pv' r2, EV (fun n => S n prev (print c ++ rest)) (Ok (erase c, pv', r2)) /\
                      skip_ws pv' r2 = skip_ws (last_of prev (print c)) rest.
 
@@ -94,12 +96,12 @@ Section PP.
       exists n0 g0, forall n g, (n0 <= n)%nat -> (g0 <= g)%nat ->
         ('(e, pv', r2) <- S n prev s ;; let (pv2, r3) := skip_ws pv' r2 in loop k (S n) mk g e pv2 r3) = X.
 
-    Definition chain_spec (c : cst) : Prop :=
-      forall prev rest X, pre prev c -> fol c rest -> tailS rest ->
+    Definition chain_spec (rp : bool) (c : cst) : Prop :=
+      forall prev rest X, pre prev c -> fol rp c rest -> tailS rest ->
       LoopEV (erase c) (fst (skip_ws (last_of prev (print c)) rest)) (snd (skip_ws (last_of prev (print c)) rest)) X ->
       HeadEV prev (print c ++ rest) X.
 
-    Lemma chain_of_item c : item_spec c -> chain_spec c.
+    Lemma chain_of_item rp c : item_spec rp c -> chain_spec rp c.
     Proof.
       intros Hi prev rest X Hpre Hfol Ht (n0 & g0 & HL).
       destruct (Hi prev rest Hpre Hfol Ht) as (pv' & r2 & (n1 & H1) & Hskip).
@@ -119,10 +121,10 @@ Section PP.
       destruct (kw_head k) as (c & t' & E & _). rewrite E in *. cbn [app] in *. now rewrite Hpk.
     Qed.
 
-    Lemma chain_bin l w1 w2 r lvl :
-      chain_spec l -> item_spec r -> ok lvl r -> is_ws w1 -> is_ws w2 ->
+    Lemma chain_bin rp l w1 w2 r lvl :
+      chain_spec false l -> item_spec rp r -> okx b rp lvl r -> is_ws w1 -> is_ws w2 ->
       (w1 <> [] \/ ends_paren l = true) -> (w2 <> [] \/ starts_paren r = true) ->
-      chain_spec (CBin k l w1 w2 r).
+      chain_spec rp (CBin k l w1 w2 r).
     Proof.
       intros Hl Hr Hokr Hw1 Hw2 Hg1 Hg2 prev rest X Hpre Hfol Ht (n0 & g0 & HL).
       cbn [print]. rewrite <- !app_assoc.
@@ -134,7 +136,7 @@ Section PP.
       cbn [print erase] in HL. rewrite Hlast in HL.
       apply Hl.
       - exact Hpre.
-      - intros Hns. destruct Hg1 as [Hne|He].
+      - split; [|discriminate]. intros Hns. destruct Hg1 as [Hne|He].
         + destruct w1 as [|c w]; [congruence|]. unfold is_ws in Hw1. cbn [forallb] in Hw1.
           apply andb_prop in Hw1 as [Hc _]. cbn [app stop]. now left.
         + apply ends_paren_needs_stop in He. congruence.
@@ -163,7 +165,7 @@ Section PP.
         exists (Nat.max n0 n1), (Datatypes.S g0). intros n g Hn Hg.
         destruct g as [|g]; [lia|]. rewrite (loop_step _ g _ pvk _ Hpk Hb).
         assert (Hsk2 : skip_ws (last_of pvk (kw_str k)) (w2 ++ print r ++ rest) = (pv3, print r ++ rest)).
-        { apply skip_ws_app; [exact Hw2|]. now apply (print_nonspace lvl). }
+        { apply skip_ws_app; [exact Hw2|]. now apply (print_nonspace b rp lvl). }
         rewrite Hsk2, H1 by lia. cbn [bind]. rewrite Hskip.
         destruct (skip_ws (last_of pv3 (print r)) rest) as [pv2 r3]. cbn [fst snd] in HL.
         apply HL; lia.
@@ -171,8 +173,8 @@ Section PP.
 
     Definition tailK (rest : str) : Prop := drop_ws rest = [] \/ find_kw [k] (drop_ws rest) = None.
 
-    Lemma compound_of_chain c lvl : chain_spec c -> ok lvl c ->
-      forall prev w0 rest, is_ws w0 -> pre (last_of prev w0) c -> fol c rest -> tailS rest -> tailK rest ->
+    Lemma compound_of_chain rp c lvl : chain_spec rp c -> okx b rp lvl c ->
+      forall prev w0 rest, is_ws w0 -> pre (last_of prev w0) c -> fol rp c rest -> tailS rest -> tailK rest ->
       EV (fun n => compound k (S n) mk n prev (w0 ++ print c ++ rest))
          (Ok (erase c, last_of (last_of (last_of prev w0) (print c)) (ws_prefix rest), drop_ws rest)).
     Proof.
@@ -185,14 +187,14 @@ Section PP.
         destruct (drop_ws rest) as [|c0 t0]; [reflexivity|]. unfold peek_kw. now rewrite Hk. }
       destruct (Hc (last_of prev w0) rest X Hpre Hfol Ht HL) as (n0 & g0 & H).
       exists (Nat.max n0 g0). intros n Hn. unfold compound.
-      rewrite (skip_ws_app w0 (print c ++ rest) prev Hw0 (print_nonspace lvl c rest Hok)).
+      rewrite (skip_ws_app w0 (print c ++ rest) prev Hw0 (print_nonspace b rp lvl c rest Hok)).
       apply H; lia.
     Qed.
   End Level.
 
   (* ================= the three levels ================= *)
-  Definition U (c : cst) : Prop :=
-    forall prev rest, pre prev c -> fol c rest ->
+  Definition U (rp : bool) (c : cst) : Prop :=
+    forall prev rest, pre prev c -> fol rp c rest ->
     EV (fun n => unary V compile n prev (print c ++ rest)) (Ok (erase c, last_of prev (print c), rest)).
 
   Definition tail1 (rest : str) : Prop := drop_ws rest = [] \/ find_kw [KAnd] (drop_ws rest) = None.
@@ -200,58 +202,64 @@ Section PP.
 
   Definition chain1 := chain_spec KAnd (unary V compile) (fun _ => True).
   Definition chain0 := chain_spec KOr (and_level V compile) tail1.
+  Definition item1 := item_spec (unary V compile) (fun _ => True).
+  Definition item0 := item_spec (and_level V compile) tail1.
 
-  Lemma item1_of_U c : U c -> item_spec (unary V compile) (fun _ => True) c.
+  Lemma item1_of_U rp c : U rp c -> item1 rp c.
   Proof.
     intros HU prev rest Hpre Hfol _. exists (last_of prev (print c)), rest. split; [now apply HU|reflexivity].
   Qed.
 
-  Lemma cmp1 c lvl : chain1 c -> ok lvl c ->
-    forall prev w0 rest, is_ws w0 -> pre (last_of prev w0) c -> fol c rest -> tail1 rest ->
+  Lemma cmp1 rp c lvl : chain1 rp c -> okx b rp lvl c ->
+    forall prev w0 rest, is_ws w0 -> pre (last_of prev w0) c -> fol rp c rest -> tail1 rest ->
     EV (fun n => and_level V compile n prev (w0 ++ print c ++ rest))
        (Ok (erase c, last_of (last_of (last_of prev w0) (print c)) (ws_prefix rest), drop_ws rest)).
   Proof.
     intros Hc Hok prev w0 rest Hw Hpre Hfol Ht.
-    apply (compound_of_chain KAnd (unary V compile) (fun _ => True) c lvl Hc Hok prev w0 rest Hw Hpre Hfol I Ht).
+    apply (compound_of_chain KAnd (unary V compile) (fun _ => True) rp c lvl Hc Hok prev w0 rest Hw Hpre Hfol I Ht).
   Qed.
 
-  Lemma item0_of_chain1 c lvl : chain1 c -> ok lvl c -> item_spec (and_level V compile) tail1 c.
+  Lemma item0_of_chain1 rp c lvl : chain1 rp c -> okx b rp lvl c -> item0 rp c.
   Proof.
     intros Hc Hok prev rest Hpre Hfol Ht.
     exists (last_of (last_of prev (print c)) (ws_prefix rest)), (drop_ws rest). split.
-    - apply (cmp1 c lvl Hc Hok prev [] rest); auto. reflexivity.
+    - apply (cmp1 rp c lvl Hc Hok prev [] rest); auto. reflexivity.
     - rewrite (skip_ws_eq rest). apply skip_ws_nonspace. apply drop_ws_nonspace.
   Qed.
 
   Lemma tail1_or w t : is_ws w -> tail1 (w ++ kw_str KOr ++ t).
   Proof. intros Hw. right. rewrite drop_ws_app; [reflexivity|exact Hw|reflexivity]. Qed.
 
-  Lemma cmp0 c : chain0 c -> ok 0 c ->
-    forall prev w0 rest, is_ws w0 -> pre (last_of prev w0) c -> fol c rest -> tail1 rest -> tail0 rest ->
+  Lemma cmp0 rp c : chain0 rp c -> okx b rp 0 c ->
+    forall prev w0 rest, is_ws w0 -> pre (last_of prev w0) c -> fol rp c rest -> tail1 rest -> tail0 rest ->
     EV (fun n => or_level V compile n prev (w0 ++ print c ++ rest))
        (Ok (erase c, last_of (last_of (last_of prev w0) (print c)) (ws_prefix rest), drop_ws rest)).
   Proof.
     intros Hc Hok prev w0 rest Hw Hpre Hfol Ht1 Ht0.
-    apply (compound_of_chain KOr (and_level V compile) tail1 c 0 Hc Hok prev w0 rest Hw Hpre Hfol Ht1 Ht0).
+    apply (compound_of_chain KOr (and_level V compile) tail1 rp c 0 Hc Hok prev w0 rest Hw Hpre Hfol Ht1 Ht0).
   Qed.
 
   (* ---------- unary forms ---------- *)
-  Lemma U_atom a st : atom_ok a st -> compile a = COk -> U (CAtom a st).
+  Lemma U_atom rp a st : atom_okx (b && rp) a st -> compile a = COk -> U rp (CAtom a st).
   Proof.
-    intros Hok Hc prev rest _ Hfol. cbn [print erase]. exists 1%nat. intros n Hn.
+    intros Hok Hc prev rest _ [Hfol Hrp]. cbn [print erase]. exists 1%nat. intros n Hn.
     destruct n as [|n]; [lia|]. rewrite unary_S.
     assert (Hs : st_pat st = Unq -> stop_res rest).
     { intros Hp. apply stop_stop_res. apply Hfol. cbn [needs_stop]. now rewrite Hp. }
-    destruct (atom_head a st Hok) as (ch & t & E & _ & Hlp).
-    destruct (simple_print V compile a st rest Hok Hc Hs) as (l & Hsim & Hlast).
-    pose proof (find_kw_print_atom all_kws a st rest Hok Hs) as Hf.
+    assert (Hal : (b && rp)%bool = true -> bare_keyword_atom V = true).
+    { intros H. apply andb_prop in H as [H _]. exact H. }
+    assert (Hal2 : (b && rp)%bool = true -> exists r', rest = RP :: r').
+    { intros H. apply andb_prop in H as [_ H]. now apply Hrp. }
+    destruct (atom_head _ a st Hok) as (ch & t & E & _ & Hlp).
+    destruct (simple_print V compile _ a st rest Hok Hal Hc Hs) as (l & Hsim & Hlast).
+    pose proof (find_kw_print_atom all_kws _ a st rest Hok Hs Hal2) as Hf.
     remember (print_atom a st ++ rest) as s eqn:Es.
     assert (Es' : s = ch :: (t ++ rest)) by (rewrite Es, E; reflexivity).
     destruct s as [|c0 s']; [discriminate|]. injection Es' as -> ->.
     rewrite Hlp. unfold peek_kw. rewrite Hf, Hsim. cbn [bind]. now rewrite Hlast.
   Qed.
 
-  Lemma U_not w c : U c -> is_ws w -> (w <> [] \/ starts_paren c = true) -> forall lvl, ok lvl c -> U (CNot w c).
+  Lemma U_not rp w c : U rp c -> is_ws w -> (w <> [] \/ starts_paren c = true) -> forall lvl, okx b rp lvl c -> U rp (CNot w c).
   Proof.
     intros HU Hw Hg lvl Hok prev rest Hpre Hfol.
     set (pvn := last_of (last_of prev (kw_str KNot)) w).
@@ -273,24 +281,25 @@ Section PP.
       change (starts (kw_str KNot) (110 :: 111 :: 116 :: w ++ print c ++ rest)%N) with (Some (w ++ print c ++ rest)).
       cbv iota beta. rewrite Hb. rewrite (Hpre eq_refl). reflexivity. }
     rewrite <- !app_assoc. rewrite Hpk.
-    rewrite (skip_ws_app w (print c ++ rest) _ Hw (print_nonspace lvl c rest Hok)).
+    rewrite (skip_ws_app w (print c ++ rest) _ Hw (print_nonspace b rp lvl c rest Hok)).
     fold pvn. rewrite H0 by lia. cbn [bind]. f_equal. f_equal. f_equal.
     unfold pvn. change (110 :: 111 :: 116 :: w ++ print c)%N with (kw_str KNot ++ w ++ print c). now rewrite !last_of_app.
   Qed.
 
-  Lemma U_paren w1 c w2 : chain0 c -> ok 0 c -> is_ws w1 -> is_ws w2 -> U (CParen w1 c w2).
+  Lemma U_paren rp w1 c w2 : chain0 (is_nil w2) c -> okx b (is_nil w2) 0 c -> is_ws w1 -> is_ws w2 -> U rp (CParen w1 c w2).
   Proof.
     intros Hc Hok Hw1 Hw2 prev rest _ _.
     assert (Hrp : nonspace_head (RP :: rest)) by reflexivity.
     assert (Hpre : pre (last_of (Some LP) w1) c).
     { intros _. now apply prev_ok_ws. }
-    assert (Hfol : fol c (w2 ++ RP :: rest)).
-    { intros _. apply stop_ws_app; [exact Hw2|]. now right. }
+    assert (Hfol : fol (is_nil w2) c (w2 ++ RP :: rest)).
+    { split; [intros _; apply stop_ws_app; [exact Hw2|]; now right|].
+      destruct w2; [intros _; eexists; reflexivity|discriminate]. }
     assert (Ht1 : tail1 (w2 ++ RP :: rest)).
     { right. rewrite drop_ws_app by assumption. now apply find_kw_other_head. }
     assert (Ht0 : tail0 (w2 ++ RP :: rest)).
     { right. rewrite drop_ws_app by assumption. now apply find_kw_other_head. }
-    destruct (cmp0 c Hc Hok (Some LP) w1 (w2 ++ RP :: rest) Hw1 Hpre Hfol Ht1 Ht0) as (n0 & H0).
+    destruct (cmp0 _ c Hc Hok (Some LP) w1 (w2 ++ RP :: rest) Hw1 Hpre Hfol Ht1 Ht0) as (n0 & H0).
     exists (Datatypes.S n0). intros n Hn. destruct n as [|n]; [lia|]. rewrite unary_S.
     cbn [print erase app]. change (LP =? LP)%N with true. cbv iota.
     replace ((w1 ++ print c ++ w2 ++ [RP]) ++ rest) with (w1 ++ print c ++ w2 ++ RP :: rest)
@@ -301,65 +310,65 @@ Section PP.
   Qed.
 
   (* ---------- all levels, by induction on the tree ---------- *)
-  Lemma up c : ok 2 c -> U c -> chain1 c /\ chain0 c.
+  Lemma up rp c : okx b rp 2 c -> U rp c -> chain1 rp c /\ chain0 rp c.
   Proof.
     intros Hok HU.
-    assert (H1 : chain1 c) by (apply chain_of_item; now apply item1_of_U).
-    split; [exact H1|]. apply chain_of_item. now apply (item0_of_chain1 c 2).
+    assert (H1 : chain1 rp c) by (apply chain_of_item; now apply item1_of_U).
+    split; [exact H1|]. apply chain_of_item. now apply (item0_of_chain1 rp c 2).
   Qed.
 
   Lemma compiled_bin k l w1 w2 r : compiled (CBin k l w1 w2 r) -> compiled l /\ compiled r.
   Proof. intros H. split; intros a Ha; apply H; cbn [catoms]; apply in_or_app; auto. Qed.
 
-  Theorem all_levels c : compiled c ->
-    (ok 2 c -> U c) /\ (ok 1 c -> chain1 c) /\ (ok 0 c -> chain0 c).
+  Theorem all_levels c : compiled c -> forall rp,
+    (okx b rp 2 c -> U rp c) /\ (okx b rp 1 c -> chain1 rp c) /\ (okx b rp 0 c -> chain0 rp c).
   Proof.
-    induction c as [a st|w c IH|k l IHl w1 w2 r IHr|w1 c IH w2]; intros Hcomp.
-    - assert (HU : ok 2 (CAtom a st) -> U (CAtom a st)).
-      { cbn [ok]. intros Hok. apply U_atom; [exact Hok|]. apply Hcomp. now left. }
-      split; [exact HU|]. split; intros Hok; apply (up (CAtom a st) Hok (HU Hok)).
-    - destruct (IH Hcomp) as (IHU & _).
-      assert (HU : ok 2 (CNot w c) -> U (CNot w c)).
-      { cbn [ok]. intros (Hw & Hok & Hg). apply (U_not w c (IHU Hok) Hw Hg 2 Hok). }
-      split; [exact HU|]. split; intros Hok; apply (up (CNot w c) Hok (HU Hok)).
+    induction c as [a st|w c IH|k l IHl w1 w2 r IHr|w1 c IH w2]; intros Hcomp rp.
+    - assert (HU : okx b rp 2 (CAtom a st) -> U rp (CAtom a st)).
+      { cbn [okx]. intros Hok. apply U_atom; [exact Hok|]. apply Hcomp. now left. }
+      split; [exact HU|]. split; intros Hok; apply (up rp (CAtom a st) Hok (HU Hok)).
+    - destruct (IH Hcomp rp) as (IHU & _).
+      assert (HU : okx b rp 2 (CNot w c) -> U rp (CNot w c)).
+      { cbn [okx]. intros (Hw & Hok & Hg). apply (U_not rp w c (IHU Hok) Hw Hg 2 Hok). }
+      split; [exact HU|]. split; intros Hok; apply (up rp (CNot w c) Hok (HU Hok)).
     - destruct (compiled_bin _ _ _ _ _ Hcomp) as [Hcl Hcr].
-      destruct (IHl Hcl) as (_ & IHl1 & IHl0). destruct (IHr Hcr) as (IHrU & IHr1 & _).
+      destruct (IHl Hcl false) as (_ & IHl1 & IHl0). destruct (IHr Hcr rp) as (IHrU & IHr1 & _).
       destruct k.
       + (* and *)
-        assert (H1 : ok 1 (CBin KAnd l w1 w2 r) -> chain1 (CBin KAnd l w1 w2 r)).
-        { cbn [ok lev]. intros (_ & _ & Hw1 & Hw2 & Hl & Hr & Hg1 & Hg2).
-          exact (chain_bin KAnd (unary V compile) (fun _ => True) (fun _ _ _ => I) l w1 w2 r 2
-                   (IHl1 Hl) (item1_of_U r (IHrU Hr)) Hr Hw1 Hw2 Hg1 Hg2). }
-        split; [cbn [ok lev]; intros (_ & Hle & _); lia|]. split; [exact H1|].
-        intros Hok. assert (Hok1 : ok 1 (CBin KAnd l w1 w2 r)).
-        { cbn [ok lev] in *. destruct Hok as (Hk & _ & Hrest). split; [exact Hk|]. split; [lia|exact Hrest]. }
-        apply chain_of_item. apply (item0_of_chain1 _ 1 (H1 Hok1) Hok1).
+        assert (H1 : okx b rp 1 (CBin KAnd l w1 w2 r) -> chain1 rp (CBin KAnd l w1 w2 r)).
+        { cbn [okx lev]. intros (_ & _ & Hw1 & Hw2 & Hl & Hr & Hg1 & Hg2).
+          exact (chain_bin KAnd (unary V compile) (fun _ => True) (fun _ _ _ => I) rp l w1 w2 r 2
+                   (IHl1 Hl) (item1_of_U rp r (IHrU Hr)) Hr Hw1 Hw2 Hg1 Hg2). }
+        split; [cbn [okx lev]; intros (_ & Hle & _); lia|]. split; [exact H1|].
+        intros Hok. assert (Hok1 : okx b rp 1 (CBin KAnd l w1 w2 r)).
+        { cbn [okx lev] in *. destruct Hok as (Hk & _ & Hrest). split; [exact Hk|]. split; [lia|exact Hrest]. }
+        apply chain_of_item. apply (item0_of_chain1 rp _ 1 (H1 Hok1) Hok1).
       + (* not: excluded *)
-        split; [|split]; cbn [ok]; intros (Hk & _); congruence.
+        split; [|split]; cbn [okx]; intros (Hk & _); congruence.
       + (* or *)
-        split; [cbn [ok lev]; intros (_ & Hle & _); lia|]. split; [cbn [ok lev]; intros (_ & Hle & _); lia|].
-        cbn [ok lev]. intros (_ & _ & Hw1 & Hw2 & Hl & Hr & Hg1 & Hg2).
-        exact (chain_bin KOr (and_level V compile) tail1 tail1_or l w1 w2 r 1
-                 (IHl0 Hl) (item0_of_chain1 r 1 (IHr1 Hr) Hr) Hr Hw1 Hw2 Hg1 Hg2).
-    - destruct (IH Hcomp) as (_ & _ & IH0).
-      assert (HU : ok 2 (CParen w1 c w2) -> U (CParen w1 c w2)).
-      { cbn [ok]. intros (Hw1 & Hw2 & Hok). apply U_paren; auto. }
-      split; [exact HU|]. split; intros Hok; apply (up (CParen w1 c w2) Hok (HU Hok)).
+        split; [cbn [okx lev]; intros (_ & Hle & _); lia|]. split; [cbn [okx lev]; intros (_ & Hle & _); lia|].
+        cbn [okx lev]. intros (_ & _ & Hw1 & Hw2 & Hl & Hr & Hg1 & Hg2).
+        exact (chain_bin KOr (and_level V compile) tail1 tail1_or rp l w1 w2 r 1
+                 (IHl0 Hl) (item0_of_chain1 rp r 1 (IHr1 Hr) Hr) Hr Hw1 Hw2 Hg1 Hg2).
+    - destruct (IH Hcomp (is_nil w2)) as (_ & _ & IH0).
+      assert (HU : okx b rp 2 (CParen w1 c w2) -> U rp (CParen w1 c w2)).
+      { cbn [okx]. intros (Hw1 & Hw2 & Hok). apply U_paren; auto. }
+      split; [exact HU|]. split; intros Hok; apply (up rp (CParen w1 c w2) Hok (HU Hok)).
   Qed.
 
   (* ---------- the theorem ---------- *)
-  Theorem parse_print c w0 w3 : ok 0 c -> compiled c -> is_ws w0 -> is_ws w3 ->
+  Theorem parse_print_x c w0 w3 : okx b false 0 c -> compiled c -> is_ws w0 -> is_ws w3 ->
     parse V compile (w0 ++ print c ++ w3) = Ok (erase c).
   Proof.
     intros Hok Hcomp Hw0 Hw3.
-    destruct (all_levels c Hcomp) as (_ & _ & H0).
+    destruct (all_levels c Hcomp false) as (_ & _ & H0).
     assert (Hd : drop_ws w3 = []).
     { rewrite <- (app_nil_r w3). apply drop_ws_app; [exact Hw3|exact I]. }
     assert (Hpre : pre (last_of None w0) c) by (intros _; now apply prev_ok_ws).
-    assert (Hfol : fol c w3).
-    { intros _. destruct w3 as [|c0 w]; [exact I|]. unfold is_ws in Hw3. cbn [forallb] in Hw3.
+    assert (Hfol : fol false c w3).
+    { split; [|discriminate]. intros _. destruct w3 as [|c0 w]; [exact I|]. unfold is_ws in Hw3. cbn [forallb] in Hw3.
       apply andb_prop in Hw3 as [Hc _]. now left. }
-    destruct (cmp0 c (H0 Hok) Hok None w0 w3 Hw0 Hpre Hfol (or_introl Hd) (or_introl Hd)) as (n0 & Hn0).
+    destruct (cmp0 false c (H0 Hok) Hok None w0 w3 Hw0 Hpre Hfol (or_introl Hd) (or_introl Hd)) as (n0 & Hn0).
     rewrite Hd in Hn0.
     set (s := w0 ++ print c ++ w3) in *.
     unfold parse.
@@ -369,3 +378,25 @@ Section PP.
     rewrite Hn0 in Hm by lia. rewrite <- Hm. reflexivity.
   Qed.
 End PP.
+
+(* ---------- the documented grammar is legal for both parser variants ---------- *)
+Lemma atom_okx_false al a st : atom_okx false a st -> atom_okx al a st.
+Proof.
+  unfold atom_okx. intros [Hv Hk]. split; [exact Hv|]. destruct (st_short st); [|exact Hk].
+  destruct Hk as (H1 & H2 & H3 & H4). repeat split; auto.
+Qed.
+
+Lemma okx_of_ok t : forall b rp rp' lvl, okx false rp' lvl t -> okx b rp lvl t.
+Proof.
+  induction t as [a st|w c IH|k l IHl w1 w2 r IHr|w1 c IH w2]; intros b rp rp' lvl; cbn [okx].
+  - apply atom_okx_false.
+  - intros (H1 & H2 & H3). split; [exact H1|]. split; [now apply (IH b rp rp')|exact H3].
+  - intros (H1 & H2 & H3 & H4 & H5 & H6 & H7).
+    split; [exact H1|]. split; [exact H2|]. split; [exact H3|]. split; [exact H4|].
+    split; [now apply (IHl b false false)|]. split; [now apply (IHr b rp rp')|exact H7].
+  - intros (H1 & H2 & H3). split; [exact H1|]. split; [exact H2|]. now apply (IH b (is_nil w2) (is_nil w2)).
+Qed.
+
+Theorem parse_print V compile c w0 w3 : ok 0 c -> compiled compile c -> is_ws w0 -> is_ws w3 ->
+  parse V compile (w0 ++ print c ++ w3) = Ok (erase c).
+Proof. intros Hok. apply parse_print_x. now apply (okx_of_ok c _ false false). Qed.
